@@ -635,7 +635,7 @@ func replay(t *T, rs []*result) {
 
 func optsFor(i int) (gen.Opts, string) {
 	secs := gen.AllSECs()
-	o := gen.Opts{Categories: gen.AllCategories(), Offset: true, PresetTraces: true}
+	o := gen.Opts{IATCorrections: true, Categories: gen.AllCategories(), Offset: true, PresetTraces: true}
 	j := i / 8
 	switch i % 8 {
 	case 0:
@@ -822,7 +822,7 @@ func run(t *T) {
 	rd := t.R.Fork(0xD0)
 	for i := 0; i < t.Budget(24); i++ {
 		sec := []string{"IAT", "ADV", "PPD", "COR", "CTX", "POS"}[i%6]
-		o := gen.Opts{SECs: []string{sec}, Categories: gen.AllCategories(), MaxBatches: 2, MaxEntries: 2}
+		o := gen.Opts{IATCorrections: true, SECs: []string{sec}, Categories: gen.AllCategories(), MaxBatches: 2, MaxEntries: 2}
 		f, err := gen.File(rd.Fork(uint64(i)), o)
 		if err != nil {
 			continue
